@@ -496,11 +496,12 @@ class Body:
                 out.extend(c for c in self.calls() if c.bb == r[1])
         return out
 
-    def access_path(self, op, max_hops=30):
+    def access_path(self, op, max_hops=30, at=None):
         """Resolve an operand through single-definition temporaries to a
         token list, e.g. ['arg1','*','0','&'] for `&(*self).0`,
         ['call@bb3'] for a call result, ['const:1_usize'].  Returns None when
-        a local on the way has several definitions (not a tree)."""
+        a local on the way has several definitions (not a tree) -- unless `at`
+        (the block of the use) is given and exactly one of them reaches it."""
         if op['k'] == 'const':
             return ['const:' + op['text']]
         if op['k'] not in ('copy', 'move'):
@@ -511,6 +512,16 @@ class Body:
             if 1 <= local <= self.arg_count and not [d for d in self.defs_of(local) if d[0] in ('stmt', 'call')]:
                 return _norm(['arg%d' % local] + toks)
             defs = [d for d in self.defs_of(local) if d[0] in ('stmt', 'call')]
+            if len(defs) > 1 and at is not None:
+                dblocks = {d[1] for d in defs}
+                reaching = []
+                for d in defs:
+                    others = [x for x in dblocks if x != d[1]]
+                    if d[1] == at or at in self.reachable(self.succ(d[1]), removed_blocks=others):
+                        reaching.append(d)
+                if len(reaching) == 1:
+                    defs = reaching
+                    at = defs[0][1]
             if len(defs) != 1:
                 return None
             d = defs[0]
@@ -904,6 +915,9 @@ class Facts:
         self.crate = raw['crate']
         self.renamed = {}
         self.inlined = []
+        self.inline_args = {}
+        self.dropped_raw = {}
+        self._dropped = {}
         self._views = {}
         ref = reference_fns()
         if ref is not None and not os.environ.get('AM_NO_INLINE'):
@@ -918,12 +932,13 @@ class Facts:
                     cached = None
             if cached is not None:
                 raw, self.renamed, self.inlined = cached['raw'], cached['renamed'], [tuple(x) for x in cached['inlined']]
+                self.inline_args, self.dropped_raw = cached.get('inline_args', {}), cached.get('dropped_raw', {})
             else:
                 raw = self._normalise(raw, text, ref)
                 try:
                     tmp = cpath + '.%d.tmp' % os.getpid()
                     with open(tmp, 'w') as f:
-                        json.dump({'raw': raw, 'renamed': self.renamed, 'inlined': self.inlined}, f)
+                        json.dump({'raw': raw, 'renamed': self.renamed, 'inlined': self.inlined, 'inline_args': self.inline_args, 'dropped_raw': self.dropped_raw}, f)
                     os.replace(tmp, cpath)
                     import glob
                     for old in glob.glob('%s.norm-*.json' % (path[:-5] if path.endswith('.json') else path)):
@@ -1012,8 +1027,14 @@ class Facts:
             else:
                 out.append(b)
         used = {}
-        for caller, callee in log:
+        inline_args = {}
+        for caller, callee, cargs in log:
             used.setdefault(callee, caller)
+            for k, cp in enumerate(cargs):
+                cur = inline_args.get('%s#%d' % (callee, k), [])
+                inline_args['%s#%d' % (callee, k)] = None if (cur is None or cp is None) else sorted(set(cur + [cp]))
+        self.inline_args = inline_args
+        self.dropped_raw = {b['path']: b for b in out if b['path'] in used and b['path'] in newset}
         # a new function that was inlined somewhere lives on in its callers; one that is only used as a value stays
         keep = []
         for b in out:
@@ -1036,6 +1057,26 @@ class Facts:
             b = copy.deepcopy(b)
             normalize.normalize(b, raws)
         return b
+
+    def dropped(self, path):
+        """the body of a new helper that was inlined into its callers (kept only to resolve the closures defined in it)"""
+        if path not in self._dropped:
+            r = self.dropped_raw.get(path)
+            self._dropped[path] = Body(r, self) if r else None
+        return self._dropped[path]
+
+    def passed_closures(self, fn_path, arg_index):
+        """closure literals passed for parameter `arg_index` (0-based) at the (inlined) call sites of a new helper;
+        None when some caller passes something else"""
+        return self.inline_args.get('%s#%d' % (fn_path, arg_index))
+
+    def written_in_place(self, body):
+        """a closure whose body was written in place at its only use (combinator model / local call): its code is
+        analysed as part of the function that uses it, with the real arguments"""
+        if body.kind != 'Closure':
+            return False
+        host = self.bodies.get(body.parent) or self.bodies.get(body.root)
+        return bool(host) and body.path in (host.raw.get('inlined') or [])
 
     def view(self, path, inline_also=()):
         """the body `path` with the named (reference) functions inlined into it as well: lets a rule state an
@@ -1233,6 +1274,8 @@ def enumerate_paths(body, start=0, unwind=False, max_paths=512, stop_at=None):
         es = body.edges(bb, unwind)
         nxt = [(d, lab) for d, lab in es if d not in blocks]
         if not es or not nxt:
+            if body.blocks[bb]['term']['k'] == 'unreachable':
+                continue    # the `otherwise` arm of an exhaustive match: not a path of the program
             out.append(Path(body, blocks, dec))
             if len(out) > max_paths:
                 return None
